@@ -4,14 +4,12 @@ import json, os, subprocess, sys
 V = os.path.dirname(os.path.dirname(os.path.abspath(__file__)))
 ALL = ["C%02d" % i for i in range(1, 31)]
 
-# id -> (level, technique, text, note, design_ref)
-CHECKS = {
- "C28": ("model_checking",
-         "TLA+ spec (types/Trie.tla) model-checked with TLC; every TLC-generated history replayed on occa::trie<int> with all queries compared after each step in both representations",
-         "The abstract dictionary and the longest-stored-prefix definition are model-checked (all 14 keys over {a,b}, unbounded depth); all histories of length 3 (quick) / 4 (thorough) over six chain/sibling keys plus seeded random histories of length 12 over all keys are executed on the real trie under ASan/UBSan, and getLongest/get/has/size are compared with the spec for every query of length <= 4 in the frozen and the unfrozen representation after every step.",
-         "Bounded alphabet {a,b}; empty string not a key; values are ints; the replayer and mini JSON reader are trusted.",
-         "DESIGN.md section 5 (C28)"),
-}
+# one file per property: checks/meta/<id>.json with keys level, technique, text, note, design_ref
+CHECKS = {}
+for f in sorted(os.listdir(os.path.join(V, "checks", "meta"))):
+    if f.endswith(".json"):
+        d = json.load(open(os.path.join(V, "checks", "meta", f)))
+        CHECKS[f[:-5]] = (d["level"], d["technique"], d["text"], d["note"], d.get("design_ref", "DESIGN.md section 5"))
 NOT_YET = "check not built yet in this round of work (planned, see DESIGN.md section 5); not claimed"
 
 def main():
